@@ -31,7 +31,8 @@ Spec == Init /\ [][Next]_vars
 ArgsNeverChange == [][args' = args]_vars
 Repeatable == ncalls > 0 => lastRes = memo[hist[Len(hist)][1]]
 \* spec -> code: every sequence f ; g ; f  (and, in simulation mode, random longer sequences printed from a constraint)
-DumpInit == /\ JsonSerialize(IOEnv.DUMP_FILE, SetToSeq({<< <<f, v>>, <<g, w>>, <<f, ((v % NVariants) + 1)>> >> : f \in Fns, g \in Fns, v \in Variants, w \in Variants}))
+DumpInit == /\ JsonSerialize(IOEnv.DUMP_FILE, SetToSeq({<< <<f, v>>, <<g, 1 + ((f + g) % NVariants)>>, <<f, ((v % NVariants) + 1)>> >> : f \in Fns, g \in Fns, v \in Variants}))     \* (the variant of the interleaved call g rotates with f + g)
             /\ hist = <<>> /\ args = 0 /\ memo = [f \in Fns |-> 0] /\ lastRes = 0 /\ ncalls = 0
 PrintFull == ncalls < MaxLen \/ PrintT(<<"H", hist>>)
+DumpNext == UNCHANGED vars        \* the dump run only needs the initial states: nothing is explored after them
 =============================================================================
